@@ -854,3 +854,42 @@ def sym_value(F, fn, op):
         else:
             outs.append(repr(o))
     return "|".join(sorted(set(outs)))
+
+
+def field_sources(F, fn, op, depth=0, seen=None):
+    """names of the fields / constants / marker calls a value is computed from, following calls, aggregates, closures
+    (their return values) and captured variables back into the enclosing function"""
+    if seen is None: seen = set()
+    out = set()
+    if depth > 10: return out
+    for o in trace_op(fn, op, transparent=()):
+        k = (o.fn.path, o.kind, str(o.data), o.path_str())
+        if k in seen: continue
+        seen.add(k)
+        if o.fields(): out.add(".".join(o.fields()))
+        if o.kind == "const":
+            v = o.data.get("v")
+            if v is not None: out.add("const:%r" % (v,))
+        elif o.kind == "call":
+            t = o.fn.blocks[o.data]["t"]; c = callee(t) or ""
+            out.add("call:" + c.rsplit("::", 1)[-1])
+            if c.endswith("::get") and len(t[2]) > 1:
+                kk = const_arg(o.fn, t[2][1])
+                if kk is not None: out.add("[%s]" % kk)
+            if c.endswith("::first"): out.add("[0]")
+            for a in t[2]: out |= field_sources(F, o.fn, a, depth + 1, seen)
+        elif o.kind == "agg":
+            rv = rv_at(o.fn, *o.data)
+            if rv[1].get("k") == "closure":
+                c2 = F.fn(rv[1]["path"])
+                if c2 is not None: out |= field_sources(F, c2, ["cp", [0]], depth + 1, seen)
+            for a in rv[2]: out |= field_sources(F, o.fn, a, depth + 1, seen)
+        elif o.kind == "rv":
+            rv = rv_at(o.fn, *o.data)
+            for x in rv[1:]:
+                if isinstance(x, list) and x and x[0] in ("cp", "mv", "c"): out |= field_sources(F, o.fn, x, depth + 1, seen)
+        elif o.kind == "upvar":
+            out.add("upvar:" + str(o.data))
+            r = resolve_upvar(F, o)
+            if r is not None: out |= field_sources(F, r[0], r[1], depth + 1, seen)
+    return out
